@@ -28,7 +28,14 @@ EXPLANATION = (
     "that are no prefix of the live buffer). Search: the re-run rule recomputed from (state, tick) on every direct pair and every "
     "live result tick (C09/rerun_snapshot_not_fresh), the snapshot each invocation works on vs. the live buffer it was started / "
     "re-run against, per-call, per-result-tick and whole-run monitors on live fan-in workflows with 1..4 workers under "
-    "scheduler-controlled interleavings, incl. three-type rounds where one invocation outlives a completed round (span family)."
+    "scheduler-controlled interleavings, incl. three-type rounds where one invocation outlives a completed round (span family). "
+    "Every schedule with any number of invocations in flight (WfModel/CollectConc.lean, invariant by induction over admissions and "
+    "finishes): lists ordered as expected and made of admitted events, the completing event of a list is in no other list and was never "
+    "buffered, nothing is buffered twice, an event in flight is counted nowhere (C09_conc_*); the histories are the reducer's "
+    "(C09_conc_finish_refines_reducer / _start_refines_admission) and, single-flight, the collectRound histories; the only-when clause "
+    "for any snapshot (C09_complete_only_received); BufOK of the live buffer and no-loss refuted at history level with a two-worker "
+    "witness replayed on the real reducer + collect_events (stream engine-collect-concurrent, op C09CH, 1..4 workers); 32 decision "
+    "expressions of collect_events / the collect branches / the admission pinned from the sources (C09_collect_source_shape)."
 )
 ASSUMPTIONS = suite.ENGINE_ASSUMPTIONS + [
     "event classes are compared by exact type, as the code does (Counter over type(e)); subclasses are distinct class ids",
